@@ -161,7 +161,7 @@ def folds_guarded(chk, facts):
         n += 1
         chk.ob(rule, vn, not bad and sites >= 1, "%s with a partial first operand: %d concrete answer(s), each under `!can_error_assuming_well_formed(..)`%s%s" % (vn, sites, " or decided by the request's own principal / resource type" if vn == "Is" else "", "" if not bad else " — except at L%s" % bad),
                where=f.where(bad[0] if bad else None), fn=f.name, key="%s:%s" % (rule, vn))
-    chk.floor(rule, "connectives", n, 2)
+    chk.floor(rule, "connectives", n, 3)
 
 
 def closure_computed(chk, facts):
